@@ -263,7 +263,7 @@ pub fn gen_main<B: BaseF>(s: &Shape) -> Vec<Vec<B>> {
     cols
 }
 
-/// honest auxiliary trace: aux0: next = cur * (main0 + r0); aux1: next = cur * (main_{1 % w} + r_last) + main0;
+/// honest auxiliary trace: aux0: next = cur * (main0 + r0) + (last periodic column, if any); aux1: next = cur * (main_{1 % w} + r_last) + main0;
 /// aux2: next = cur^3 * (main0 + r0)
 pub fn gen_aux<B: BaseF, E: FieldElement<BaseField = B>>(s: &Shape, main: &ColMatrix<B>, rands: &[E]) -> Vec<Vec<E>> {
     gen_aux_from::<B, E>(s, main, rands, None)
@@ -281,7 +281,7 @@ pub fn gen_aux_from<B: BaseF, E: FieldElement<BaseField = B>>(s: &Shape, main: &
     }
     for i in 0..n - 1 {
         let m0: E = main.get(0, i).into();
-        cols[0][i + 1] = cols[0][i] * (m0 + rands[0]);
+        cols[0][i + 1] = cols[0][i] * (m0 + rands[0]) + aux_periodic::<B, E>(s, i);
         if aw > 1 {
             let m1: E = main.get(1 % w, i).into();
             cols[1][i + 1] = cols[1][i] * (m1 + rands[rands.len() - 1]) + m0;
@@ -292,6 +292,15 @@ pub fn gen_aux_from<B: BaseF, E: FieldElement<BaseField = B>>(s: &Shape, main: &
         }
     }
     cols
+}
+
+/// the periodic value the first auxiliary rule adds at step i: the LAST periodic column of the shape
+/// (zero when the shape has none). An additive term of degree < n: the declared degree 2 stands.
+pub fn aux_periodic<B: BaseF, E: FieldElement<BaseField = B>>(s: &Shape, i: usize) -> E {
+    match s.periodic.last() {
+        None => E::ZERO,
+        Some(p) => lit::<B>(p.values[i % p.values.len()]).into(),
+    }
 }
 
 pub fn read_inputs<B: BaseF>(shape: &Arc<Shape>, main: &[Vec<B>]) -> GenInputs<B> {
@@ -411,7 +420,7 @@ impl<B: BaseF> Air for GenAir<B> {
             .collect()
     }
 
-    fn evaluate_aux_transition<F, E>(&self, main_frame: &EvaluationFrame<F>, aux_frame: &EvaluationFrame<E>, _periodic: &[F], rands: &AuxRandElements<E>, result: &mut [E])
+    fn evaluate_aux_transition<F, E>(&self, main_frame: &EvaluationFrame<F>, aux_frame: &EvaluationFrame<E>, periodic: &[F], rands: &AuxRandElements<E>, result: &mut [E])
     where
         F: FieldElement<BaseField = B>,
         E: FieldElement<BaseField = B> + winterfell::math::ExtensionOf<F>,
@@ -426,7 +435,11 @@ impl<B: BaseF> Air for GenAir<B> {
         let s = &self.inputs.shape;
         let r = rands.rand_elements();
         let m0: E = mc[0].into();
-        result[0] = an[0] - ac[0] * (m0 + r[0]);
+        let p_last: E = match periodic.last() {
+            None => E::ZERO,
+            Some(p) => (*p).into(),
+        };
+        result[0] = an[0] - (ac[0] * (m0 + r[0]) + p_last);
         if result.len() > 1 {
             let m1: E = mc[1 % s.width()].into();
             result[1] = an[1] - (ac[1] * (m1 + r[r.len() - 1]) + m0);
@@ -598,7 +611,7 @@ pub fn check_aux<B: BaseF, E: FieldElement<BaseField = B>>(s: &Shape, main: &[Ve
     for i in 0..n - s.exemptions {
         let nx = (i + 1) % n;
         let m0: E = main[0][i].into();
-        if aux[0][nx] != aux[0][i] * (m0 + rands[0]) {
+        if aux[0][nx] != aux[0][i] * (m0 + rands[0]) + aux_periodic::<B, E>(s, i) {
             return Err(format!("aux transition 0 fails at step {i}"));
         }
         if aux.len() > 1 {
